@@ -83,6 +83,44 @@ def check_wire_shape(prog: Program, f: FuncInfo, spec: Dict[str, Tuple[str, str]
                     if w.value is None or not _reads_field(prog, ci, w.value, fld):
                         problems.append((f'member {k!r} value', f'member {k!r} must carry the {arg!r} the object was built with, '
                                          f'found {norm(w.value) if w.value is not None else "?"}', w.node.line))
+            elif mode in ('iff-not-none', 'iff-truthy'):
+                fld = fields.get(arg)
+                if fld is None:
+                    raise AnalysisError(f'{ci.qualname}.__init__: no attribute stores parameter {arg!r}')
+                want_kind = 'is-none' if mode == 'iff-not-none' else 'truthy'
+                ok_edge = None
+                bad = None
+                for g in guards:
+                    ck = classify_cond(prog, f, g.src.ast)
+                    subj_ok = ck.subject in (f'self.{fld}',) or _is_getter_of(prog, ci, ck.subject, fld)
+                    if not subj_ok:
+                        bad = f'additional guard `{norm(g.src.ast)}` on member {k!r}'
+                    elif ck.kind == 'is-none' and mode == 'iff-not-none':
+                        if (g.label == 'T') == ck.negated:
+                            ok_edge = g
+                        else:
+                            bad = f'written when {arg!r} IS None'
+                    elif ck.kind == 'truthy' and mode == 'iff-truthy':
+                        if (g.label == 'T') != ck.negated:
+                            ok_edge = g
+                        else:
+                            bad = f'written when {arg!r} is empty'
+                    elif ck.kind == 'truthy' and mode == 'iff-not-none':
+                        bad = (f'guard `{norm(g.src.ast)}` tests truthiness of {arg!r}: the legitimate values 0 and "" would be '
+                               f'dropped from the wire form (a call would turn into a notification); `is not None` required')
+                    else:
+                        bad = f'guard `{norm(g.src.ast)}` is not the expected {want_kind} test of {arg!r}'
+                n_ob += 2
+                if bad:
+                    problems.append((f'member {k!r} guard', f'member {k!r}: {bad}', w.node.line))
+                elif ok_edge is None:
+                    problems.append((f'member {k!r} guard', f'member {k!r} must be written iff {arg!r} is '
+                                     f'{"not None" if mode == "iff-not-none" else "non-empty"}; no such guard dominates the write', w.node.line))
+                elif not edge_postdominated_by(cfg, ok_edge, [w.node]):
+                    problems.append((f'member {k!r} guard', f'member {k!r}: a path on which it should be written reaches the return without it', w.node.line))
+                if w.value is not None and not _reads_field(prog, ci, w.value, fld):
+                    problems.append((f'member {k!r} value', f'member {k!r} must carry the {arg!r} the object was built with, '
+                                     f'found {norm(w.value)}', w.node.line))
             else:  # iff-set
                 fld = fields.get(arg)
                 if fld is None:
@@ -156,3 +194,6 @@ def _reads_field(prog: Program, ci: ClassInfo, value: ast.expr, fld: str) -> boo
 RESPONSE_SPEC = {'jsonrpc': ('const', '2.0'), 'id': ('always', 'id'), 'result': ('iff-set', 'result'),
                  'error': ('iff-set', 'error')}
 ERROR_SPEC = {'code': ('always', 'code'), 'message': ('always', 'message'), 'data': ('iff-set', 'data')}
+
+REQUEST_SPEC = {'jsonrpc': ('const', '2.0'), 'method': ('always', 'method'), 'id': ('iff-not-none', 'id'),
+                'params': ('iff-truthy', 'params')}
